@@ -9,6 +9,7 @@ Theorems (all over Model/Routing.lean applied to the tables regenerated from /re
   route_leader              produce/fetch: an accepted request goes to the one broker leading every partition
   route_leader_mismatch     partitions led by different brokers → the request is refused
   route_listoffsets_leader  a split ListOffsets part goes to its partition's leader
+  route_listoffsets_designated … and never to a broker the layout does not designate (unknown leader → control)
   filter_eq_last_refresh    topic-filtered metadata from the cache = restriction of the last answer
   update_follows            after update(m) the layout and the connection groups are those of m
   conns_invariant           … along every history of updates
@@ -135,6 +136,26 @@ theorem route_listoffsets_leader (c : Cluster) (tn : String) (p : Int) (t : Topi
     (hl : c.brokers.lookup part.leader = some br) :
     leaderFirst c [(tn, [p])] = .ok br.id := by
   simp [leaderFirst, lookupD, ht, hp, hl]
+
+/-- … and a ListOffsets part is never sent to a broker the layout does not designate: the target is the listed
+leader of the part's partition, or −1 (the control connection; any broker then answers with the error code)
+when the topic, the partition or the leader is unknown.  (Before fix D20 an unknown leader read the zero
+broker and the part went to broker 0.) -/
+theorem route_listoffsets_designated (c : Cluster) (tn : String) (p : Int) (ps : List Int)
+    (rest : List (String × List Int)) (b : Int) (h : leaderFirst c ((tn, p :: ps) :: rest) = .ok b) :
+    b = -1 ∨ ∃ e br, (lookupD c.topics tn Topic.zero).partitions.find? (fun e => e.2.id == p) = some e ∧
+      c.brokers.lookup e.2.leader = some br ∧ br.id = b := by
+  simp only [leaderFirst] at h
+  split at h
+  · next e he =>
+    split at h
+    · next br hbr => injection h with h; exact Or.inr ⟨e, br, he, hbr, h⟩
+    · injection h with h; exact Or.inl h.symm
+  · injection h with h; exact Or.inl h.symm
+
+example : (match leaderFirst ⟨0, [(0, ⟨0, "b0", 9092, ""⟩), (1, ⟨1, "b1", 9092, ""⟩)],
+    [("t", ⟨"t", 0, [(0, ⟨0, 0, 7, [], [], []⟩)]⟩)]⟩ [("t", [0])] with | .ok b => b | .error _ => 0) = -1 := by decide
+
 
 
 /-! ## the metadata cache -/
